@@ -17,7 +17,7 @@ RULE = ('cases: histories over {learn(snet, router, dnets, status), status(snet,
         'dumped after EVERY operation (key sets, every router record, every lookup, identity of the record a path leads to). '
         'nsap cases: the same kind of history sent as real IAmRouterToNetwork / NetworkNumberIs / routed NPDUs (same MACs 1..3 on both LANs) plus delete_router_references calls over two '
         'vlan.Networks into a two- or three-adapter NetworkServiceAccessPoint whose adapters sit on link stubs that go down (downstream requests raise) and come back while frames keep arriving; cache dumped after each frame / link change, compared with the model; aged-process scenarios (the real TaskManager\'s same-instant tie-break counter advanced to just before 2^16 / 2^20, then two competing announcements queued back to back in one instant: the newest must win) '
-        'run on the operations the frames stand for.  direct: breadth-first over all DISTINCT reachable cache states to depth '
+        'run on the operations the frames stand for.  nsap-traffic cases: emitted frames (application data handed to next-hop routers, Who-Is-Router), parked requests and cache after every step of histories of announcements (lists mixing remote and attached networks), application requests, routed through-traffic, withdrawals and renumberings, against the node model RouterNode.v.  direct: breadth-first over all DISTINCT reachable cache states to depth '
         '2 (quick) / 4 (thorough) with every op of the alphabet applied to each (= all histories of length <= 3 / 5, since the '
         'predicate depends on the state only), random histories of length 300, and next-hop MAC of frames emitted by the '
         'NSAP after message-driven histories.  non-trivial = at least one operation changes the cache or is refused; '
@@ -685,7 +685,11 @@ def run_msgs(msgs, learned_a, start_a=1, three=False, probe=None):
             before = rig.raised
             relay_ok = [rig.links[l].up for l in sorted(rig.links) if l != m[1]]
             rig.send_iam(m[1], m[2], m[3])
-            extra = (relay_ok, 1 if rig.raised > before else 0, NONE if net is None else net)
+            # the handler can also be left by the exception of the ARRIVAL adapter's dead link when it
+            # releases parked requests for a listed network; on_iam models the relay only, so the flag is
+            # compared only when that cannot happen (the cache is compared in any case)
+            if rig.links[m[1]].up or not any(d in rig.pre_pending for d in m[3]):
+                extra = (relay_ok, 1 if rig.raised > before else 0, NONE if net is None else net)
         elif m[0] == 'routed':
             if m[3] not in attached:
                 hist.append(('L', NONE if net is None else net, m[2], (m[3],), 0))
